@@ -126,6 +126,8 @@ class Ctx:
         self.props_ok = False
         self.known = load_known()
         self.scratch = tempfile.mkdtemp(prefix='pga-%s-' % prop)
+        import atexit
+        atexit.register(shutil.rmtree, self.scratch, True)      # also on a machinery error or an exception: nothing stays under /tmp
         self.searching = False
 
     # ------------------------------------------------------------------ bookkeeping
